@@ -443,9 +443,10 @@ pub fn run_check(engine: &dyn Engine, spec: &CheckSpec) -> i32 {
             }
             None => false,
         };
-        if !reproduced && mv.verdict == "hang" {
-            // a time-limit verdict that does not repeat when its case is executed alone says the
-            // limit was reached because of where the budget stood, not that the call never returns:
+        if !reproduced && (mv.verdict == "hang" || mv.verdict == "abort") {
+            // a resource-limit verdict (CPU-time limit reached, allocation refused under the
+            // address-space cap) that does not repeat when its case is executed alone says the limit
+            // was reached because of where the budget / the heap stood, not what the call does:
             // counted, neither a violation (it cannot be replayed) nor a harness error
             hangs_not_reproduced += 1;
             continue;
